@@ -1,20 +1,25 @@
-"""Per-property configuration of the orchestrator."""
+"""Per-property configuration of the orchestrator: one file per property in tools/cfg/Cxx.py defining CFG."""
+import importlib.util, os, glob
 
 COMMON_TB = [
     "Lean 4.33.0 kernel (lake build); axioms of every property theorem audited with #print axioms against {propext, Classical.choice, Quot.sound}; no sorry/admit/native_decide/bv_decide/own axioms",
-    "the hand-written executable Lean model is tied to /repo by Tie A (differential execution through /verif/harness, this run) and, for leaf functions and word tables, Tie B (tools/extract.py + bridge theorems)",
+    "the hand-written executable Lean model is tied to /repo by Tie A (differential execution through the Rust harness on this run) and, for leaf functions and word tables, Tie B (tools/extract.py + bridge theorems)",
     "harness generators, canonicalisation (harness/src/canon.rs = lean/XehModel/Driver/Codec.lean) and the compiled Lean driver",
 ]
 
-def _nt_default(op, imp):
+def nt_default(op, imp):
+    """a case is non-trivial unless it is a bare stack underflow"""
     return not imp.startswith("err StackUnderflow")
 
-PROPS = {
-    "C09": {
-        "n_quick": 30000, "n_thorough": 1500000,
-        "nontrivial": _nt_default,
-        "rule": "boundary×boundary integer pairs for every binary word, shift counts -2..130, every unary word on every boundary int/real, boundary real pairs, then random operand tuples over all operand-type combinations (one PRNG seed); a case is non-trivial when it is not a bare stack underflow; distinct = distinct request lines",
-        "trusted_base": COMMON_TB + ["Model/SoftFloat.lean defines IEEE-754 binary64 operations as exact-rational-then-round-to-nearest-even; it is validated against the hardware FPU (through Rust) by the correspondence on every run, not proved against an external IEEE formalisation", "NaN payloads are not modelled (NaNs compared as a class)"],
-        "assumptions": ["operands are pushed through the public push_data API and the word is evaluated with Xstate::eval on a clone of a booted interpreter", "comparisons on NaN operands are excluded from the oracle (left unspecified by the property)"],
-    },
-}
+PROPS = {}
+_here = os.path.dirname(os.path.abspath(__file__))
+for _f in sorted(glob.glob(os.path.join(_here, "cfg", "C*.py"))):
+    _spec = importlib.util.spec_from_file_location(os.path.basename(_f)[:-3], _f)
+    _m = importlib.util.module_from_spec(_spec)
+    _m.COMMON_TB = COMMON_TB
+    _m.nt_default = nt_default
+    _spec.loader.exec_module(_m)
+    _cfg = _m.CFG
+    _cfg.setdefault("nontrivial", nt_default)
+    _cfg["trusted_base"] = COMMON_TB + _cfg.get("trusted_base_extra", [])
+    PROPS[os.path.basename(_f)[:-3]] = _cfg
